@@ -24,7 +24,7 @@ INV = "TypeOK Accounting MeasureBounded UnitsInInput Ordered AgreesWithGrammar R
 
 
 def case_of_event(e):
-    if e["op"] == "PcoRoundTrip":
+    if e["op"] in ("PcoRoundTrip", "PcoHeld"):
         return dict(kind="units", units=e["units"], cuts=[])
     if e["op"] == "PcoUnMarshal":
         return dict(kind="bytes", data=e["bytes"])
@@ -77,6 +77,7 @@ def run(c):
     for ln in events:
         op = ln[7:ln.index('"', 7)]
         if op == "PcoRoundTrip": calls += 2
+        elif op == "PcoHeld": calls += 4
         elif op.startswith("Psi"): calls += 256
         else: calls += 1
         if op.startswith("Pco"):
@@ -92,7 +93,7 @@ def run(c):
         op, cls = t[2], t[3]
         what = "%s: observation not allowed by the specification (%s, detail %s)" % (op, cls, t[4] if len(t) > 4 else "")
         if op.startswith("Pco"):
-            what += "; input %s" % json.dumps(e["units"] if op == "PcoRoundTrip" else e["bytes"])[:200]
+            what += "; input %s" % json.dumps(e["units"] if op in ("PcoRoundTrip", "PcoHeld") else e["bytes"])[:200]
         return (op, cls, what, dict(case=case_of_event(e), observed=e if len(events[idx]) < 4000 else "see case",
                                      how="driver pco replay [case] out.ndjson; validate out.ndjson with Trace_C16"))
 
